@@ -331,6 +331,10 @@ def hook_entry(workingDirectory, restarts, componentName, log, exitReason, exitC
     ans = CTX.plan.hook_answer(ref)
     REC.ev('hook', ref, {'answer': ans, 'restarts': restarts, 'exitReason': exitReason})
     REC.count('fault.hook.%s' % ans)
+    if ans.startswith('slow'):
+        # a restart hook that takes its time (it prepares input files): the component may be stopped meanwhile
+        simk.sim_sleep(9.0)
+        ans = ans[4:]
     rc = codes.restartContexts
     if ans == 'Possible':
         return rc['RestartContextRestartPossible']
